@@ -37,6 +37,9 @@
 
 #include <sys/stat.h>
 #include <unistd.h>
+#include <sys/wait.h>
+#include <functional>
+#include <sanitizer/common_interface_defs.h>
 #include <new>
 #include <typeinfo>
 #include <fstream>
@@ -96,6 +99,48 @@ CountingMM g_mm;
 std::string g_dir;
 
 inline size_t heapNow() { return __sanitizer_get_current_allocated_bytes(); }
+
+// phase of the request in flight, printed when a sanitizer kills the process (checks/c03.py reads it)
+const char* volatile g_phase = "idle";
+void onDeath()
+{
+    const char* p = g_phase;
+    write(2, "c03-phase: ", 11);
+    write(2, p, strlen(p));
+    write(2, "\n", 1);
+}
+
+// "mode forkgold 1": after a request that did not succeed, the golden step runs in a forked child and the long-lived
+// objects are then replaced. checks/c03.py switches this on in a shard only after a crash in the golden step was confirmed
+// there, so that a defect which poisons the object after every error costs a fork instead of a driver restart per case.
+bool g_forkGold = false;
+
+std::string inChild(const std::function<std::string()>& f)
+{
+    int fd[2];
+    if (pipe(fd) != 0) return "harness:pipe";
+    fflush(stdout); fflush(stderr);
+    const pid_t pid = fork();
+    if (pid < 0) { close(fd[0]); close(fd[1]); return "harness:fork"; }
+    if (pid == 0)
+    {
+        close(fd[0]);
+        std::string r = f();
+        if (r.empty()) r = "ok";
+        (void)!write(fd[1], r.data(), r.size());
+        _exit(0);
+    }
+    close(fd[1]);
+    std::string got;
+    char buf[256];
+    ssize_t n;
+    while ((n = read(fd[0], buf, sizeof buf)) > 0) got.append(buf, n);
+    close(fd[0]);
+    int st = 0;
+    waitpid(pid, &st, 0);
+    if (got.empty()) return WIFSIGNALED(st) ? "died:signal" + std::to_string(WTERMSIG(st)) : "died:exit" + std::to_string(WEXITSTATUS(st));
+    return got == "ok" ? "" : got;
+}
 
 unsigned long long fnv(const std::string& s)
 {
@@ -227,6 +272,7 @@ struct XpResult
     int bval, crc, erc, cres, orc, ores;
     unsigned long long hash;
     size_t msglen, allocs;
+    int recreated = 0;
     XpResult() : bval(-1), crc(-1), erc(-1), cres(-1), orc(-1), ores(-1), hash(0), msglen(0), allocs(0) { cpp[0] = type[0] = gold[0] = msg[0] = 0; }
 };
 
@@ -249,6 +295,7 @@ void runXpc(Doc& d, const std::string& text, XpResult& o, bool fresh)
         holder.savedCev = g_cev; XalanCreateXPathEvaluator(&holder.cev); g_cev = holder.cev;
     }
     const size_t c0 = g_mm.count;
+    g_phase = fresh ? "fresh" : "request";
     std::string type = "-", msg;
     const XalanDOMString expr = dom(text);
     // C++ entry point: the same calls the C API makes (createXPath without resolver, document node as context)
@@ -276,7 +323,8 @@ void runXpc(Doc& d, const std::string& text, XpResult& o, bool fresh)
     o.msglen = msg.size();
     setz(o.msg, sizeof o.msg, head(msg));
     o.allocs = g_mm.count - c0;
-    // C API
+    // C API: two steps on the long-lived handle, the one-shot call on the fresh one
+    if (!fresh)
     {
         XalanXPathHandle xh = 0;
         o.crc = XalanCreateXPath(g_cev, text.c_str(), "UTF-8", &xh);
@@ -287,28 +335,49 @@ void runXpc(Doc& d, const std::string& text, XpResult& o, bool fresh)
             if (o.erc == XALAN_XPATH_API_SUCCESS) o.cres = res;
             XalanDestroyXPath(g_cev, xh);
         }
+    }
+    else
+    {
         int res = -1;
         o.orc = XalanEvaluateXPathExpressionAsBoolean(g_cev, text.c_str(), "UTF-8", d.text.c_str(), &res);
         if (o.orc == XALAN_XPATH_API_SUCCESS) o.ores = res;
     }
     // the evaluators must stay usable
+    if (!fresh)
     {
-        std::string gm, got, gold;
-        std::string gexc = guardCall([&]() {
-            const XalanDOMString ge = dom("concat(name(/*),count(//*),//b[2])");
-            const XObjectPtr r(g_ev->evaluate(g_goldDoc->sup, g_goldDoc->doc, ge.c_str()));
-            got = toUtf8(r->str(g_ev->getExecutionContext()));
-        }, gm);
-        if (!gexc.empty()) gold = "exc:" + gexc;
-        else if (got != "r43") gold = "bad:cpp:" + got;
-        else
-        {
+        g_phase = "golden";
+        auto goldFn = [&]() -> std::string {
+            std::string gm, got;
+            std::string gexc = guardCall([&]() {
+                const XalanDOMString ge = dom("concat(name(/*),count(//*),//b[2])");
+                const XObjectPtr r(g_ev->evaluate(g_goldDoc->sup, g_goldDoc->doc, ge.c_str()));
+                got = toUtf8(r->str(g_ev->getExecutionContext()));
+            }, gm);
+            if (!gexc.empty()) return "exc:" + gexc;
+            if (got != "r43") return "bad:cpp:" + got;
             int res = -1;
             const int rc = XalanEvaluateXPathExpressionAsBoolean(g_cev, "count(//b)=2 and not(//c)", "UTF-8", XGOLD_XML, &res);
-            if (rc != 0 || res != 1) gold = "bad:capi:" + std::to_string(rc) + "," + std::to_string(res);
-            else gold = "ok";
+            if (rc != 0 || res != 1) return "bad:capi:" + std::to_string(rc) + "," + std::to_string(res);
+            return "";
+        };
+        const bool failed = !exc.empty() || o.crc != 0 || o.erc != 0;
+        std::string gold;
+        if (g_forkGold && failed)
+        {
+            gold = inChild(goldFn);
+            // replace the long-lived evaluators: the old ones are not trusted after a failure in this mode
+            XPathEvaluator* old = g_ev;
+            g_ev = new XPathEvaluator(g_mm);
+            delete old;
+            XalanDestroyXPathEvaluator(g_cev);
+            g_cev = 0;
+            XalanCreateXPathEvaluator(&g_cev);
+            o.recreated = 1;
         }
-        setz(o.gold, sizeof o.gold, gold);
+        else
+            gold = goldFn();
+        setz(o.gold, sizeof o.gold, gold.empty() ? "ok" : gold);
+        g_phase = "after";
     }
 }
 
@@ -317,15 +386,19 @@ std::string cmdXpc(const std::vector<std::string>& f)
     if (f.size() < 3) return "e\tbad request";
     std::map<std::string, Doc*>::iterator it = g_docs.find(f[1]);
     if (it == g_docs.end()) return "e\tno such slot";
-    XpResult r;
+    XpResult r, fr;
     const size_t h0 = heapNow(), m0 = g_mm.bytes;
-    runXpc(*it->second, f[2], r, f.size() > 3 && f[3] == "o:fresh=1");
+    runXpc(*it->second, f[2], r, false);
     const size_t m1 = g_mm.bytes, h1 = heapNow();
+    // the same request on objects made for it and destroyed after it: what stays outstanding is lost
+    runXpc(*it->second, f[2], fr, true);
+    const size_t m2 = g_mm.bytes, h2 = heapNow();
     return std::string("cpp=") + r.cpp + "\ttype=" + r.type + "\tbool=" + std::to_string(r.bval) + "\thash=" + hex(r.hash) + "\tmsglen=" + std::to_string(r.msglen) +
         "\tcapi=" + std::to_string(r.crc) + "," + std::to_string(r.erc) + "," + std::to_string(r.cres) +
-        "\tcapi1=" + std::to_string(r.orc) + "," + std::to_string(r.ores) +
+        "\tfresh=" + fr.cpp + "," + std::to_string(fr.bval) + "," + hex(fr.hash) + "," + std::to_string(fr.orc) + "," + std::to_string(fr.ores) +
         "\tgold=" + r.gold + "\tmm=" + std::to_string(m0) + "," + std::to_string(m1) + "\theap=" + std::to_string(h0) + "," + std::to_string(h1) +
-        "\tallocs=" + std::to_string(r.allocs) + "\tmsg=" + r.msg;
+        "\tfmm=" + std::to_string((long long)m2 - (long long)m1) + "\tfheap=" + std::to_string((long long)h2 - (long long)h1) +
+        "\tallocs=" + std::to_string(r.allocs) + "\trecreated=" + std::to_string(r.recreated) + "\tmsg=" + r.msg;
 }
 
 // ---------- transformations ----------
@@ -341,6 +414,7 @@ struct TrResult
     char exc[48];
     char gold[48];
     char msg[800];
+    int recreated = 0;
     TrResult() : rc(0), errlen(0), okerr(0), outlen(0), allocs(0), outhash(0) { stage[0] = exc[0] = gold[0] = msg[0] = 0; }
 };
 
@@ -412,6 +486,7 @@ void runTrx(const std::vector<std::string>& f, TrResult& r, std::string* fullErr
     size_t okerr = 0;
     const size_t c0 = g_mm.count;
     const size_t hc0 = heapNow();
+    g_phase = "request";
     std::string emsg;
     std::string exc = guardCall([&]() {
         std::istringstream xslSrc(xsl), xmlSrc(xml);
@@ -565,11 +640,25 @@ void runTrx(const std::vector<std::string>& f, TrResult& r, std::string* fullErr
     t.clearStylesheetParams();
     // the transformer must stay usable
     std::string g;
+    g_phase = "golden";
 #if defined(C03_SKIP_GOLDEN_AFTER_ERROR)
     if (rc != 0) g = ""; else
 #endif
-    g = golden(t);
+    if (g_forkGold && rc != 0 && !fresh)
+    {
+        g = inChild([&]() { return golden(t); });
+        t.setEntityResolver(0);
+        if (capi) { DeleteXalanTransformer(g_ct); g_ct = CreateXalanTransformer(); }
+        else { XalanTransformer* old = g_t; g_t = new XalanTransformer(g_mm); delete old; }
+        r.recreated = 1;
+        setz(r.gold, sizeof r.gold, g.empty() ? "ok" : g);
+        g_phase = "after";
+        return;
+    }
+    else
+        g = golden(t);
     setz(r.gold, sizeof r.gold, g.empty() ? "ok" : g);
+    g_phase = "after";
     t.setEntityResolver(0);
 }
 
@@ -586,7 +675,7 @@ std::string cmdTrx(const std::vector<std::string>& f)
     std::string o = "rc=" + std::to_string(r.rc) + "\tstage=" + r.stage + "\terr=" + std::to_string(r.errlen) + "\tokerr=" + std::to_string(r.okerr) +
         "\texc=" + r.exc + "\tout=" + std::to_string(r.outlen) + "," + hex(r.outhash) + "\tgold=" + r.gold +
         "\tmm=" + std::to_string(m0) + "," + std::to_string(m1) + "\theap=" + std::to_string(h0) + "," + std::to_string(h1) +
-        "\tallocs=" + std::to_string(r.allocs) + "\tmsg=" + r.msg;
+        "\tallocs=" + std::to_string(r.allocs) + "\trecreated=" + std::to_string(r.recreated) + "\tmsg=" + r.msg;
     if (full) o += "\tfullerr=" + esc(fullErr) + "\tfullout=" + esc(fullOut);
     return o;
 }
@@ -598,6 +687,7 @@ int main(int argc, char** argv)
     g_dir = argc > 1 ? argv[1] : "/tmp";
     if (argc > 2) g_mm.cap = size_t(atoi(argv[2])) << 20;
     mkdir(g_dir.c_str(), 0777);
+    __sanitizer_set_death_callback(onDeath);
     if (XalanInitialize() != 0) { fprintf(stderr, "c03: XalanInitialize failed\n"); return 3; }
     if (XalanXPathAPIInitialize() != 0) { fprintf(stderr, "c03: XalanXPathAPIInitialize failed\n"); return 3; }
     size_t finalBytes = 0;
@@ -638,6 +728,7 @@ int main(int argc, char** argv)
                     else if (f[0] == "doc") reply = cmdDoc(f);
                     else if (f[0] == "lsan") reply = std::to_string(__lsan_do_recoverable_leak_check());
                     else if (f[0] == "ping") reply = "pong";
+                    else if (f[0] == "mode" && f.size() > 2 && f[1] == "forkgold") { g_forkGold = f[2] == "1"; reply = "ok"; }
                     else reply = "e\tunknown command";
                 }
                 catch (const XSLException& e) { reply = "e\t" + esc(excText(e)); }
